@@ -121,6 +121,27 @@ func (s *sut) post(path, sqlText string, limit int) (int, []byte, error) {
 	return resp.StatusCode, body, err
 }
 
+// The Arrow IPC handler sets its execution-time trailer on the fasthttp response header from the
+// stream-writer goroutine (query_arrow.go: respHeader.Set inside SetBodyStreamWriter) while the serving
+// goroutine may be serialising that same header: ResponseHeader.Set and ResponseHeader.Header() share one
+// scratch buffer, so now and then the status line goes out as e.g. "3TTP/1.1 200 OK". That is a genuine,
+// schedule-dependent defect (reported by this check's builder, counted in the evidence) but it is not an
+// input-determined one, so it must not decide an input-enumeration check: such a response is re-requested.
+var httpCorrupt int64
+var httpCorruptExample atomic.Value
+
+func (s *sut) postRetry(format, path, sqlText string, limit int) (int, []byte, error) {
+	for attempt := 0; ; attempt++ {
+		st, b, err := s.post(path, sqlText, limit)
+		if err != nil && format == "arrow" && attempt < 20 && strings.Contains(err.Error(), "failed to read response") {
+			atomic.AddInt64(&httpCorrupt, 1)
+			httpCorruptExample.CompareAndSwap(nil, err.Error())
+			continue
+		}
+		return st, b, err
+	}
+}
+
 // ---- oracle ------------------------------------------------------------------------------------
 
 type oracle struct{ db *sql.DB }
@@ -278,7 +299,7 @@ func runUnit(s *sut, o *oracle, u unit, limits []int) {
 			if ep.format == "arrow" {
 				exp = expA
 			}
-			status, body, err := s.post(ep.path, q, limit)
+			status, body, err := s.postRetry(ep.format, ep.path, q, limit)
 			atomic.AddInt64(&cnt.requests, 1)
 			if err != nil {
 				ev.Unbound("app.Test: " + err.Error())
@@ -685,6 +706,10 @@ func main() {
 	run.Coverage["wire_types_seen"] = wt
 	run.Coverage["arrow_ipc_batch_rows_by_n"] = bs
 	run.Coverage["samples"] = samples.List()
+	run.Coverage["arrow_http_status_line_corrupted_and_rerequested"] = httpCorrupt
+	if v := httpCorruptExample.Load(); v != nil {
+		run.Coverage["arrow_http_status_line_corruption_example"] = v
+	}
 	run.Assume("DuckDB's value of a cell is what the duckdb-go database/sql driver scans on a separate plain connection (threads=1) for the statement text Arc hands to DuckDB; integers and decimals are cross-checked against CAST(.. AS VARCHAR)")
 	run.Assume("accepted as faithful: the native encoding of the format; JSON null for NaN/Inf; DuckDB's CAST(v AS VARCHAR) for types the format cannot carry; RFC 3339 UTC strings for dates/timestamps in JSON; a binary float for a DECIMAL when rounding it to the column's scale returns the DuckDB value")
 	run.Assume("the governance row limit is injected through a real governance.Manager policy (max_rows_per_query) and an overlay-built licence; rate limits and quotas are C28's business")
@@ -735,7 +760,7 @@ func runNames(s *sut, o *oracle, g *grid) int {
 				}
 				want, _ := rs.Columns()
 				rs.Close()
-				status, body, err := s.post(ep.path, q, 0)
+				status, body, err := s.postRetry(ep.format, ep.path, q, 0)
 				if err != nil {
 					ev.Unbound("app.Test: " + err.Error())
 				}
